@@ -165,6 +165,9 @@ func (jr *jpegReader) nextMarker() bool {
 			jr.marker = markerType(jr.buf[1])
 			return true
 		}
+		// Marker outside of an image (before the first SOI or after the
+		// last EOI): step over it and keep searching for an SOI.
+		jr.err = jr.discard(1)
 	}
 	return false
 }
